@@ -2347,7 +2347,7 @@ theorem aroundPayload_of_norm (S : Schema) (hst : PM.FromDom.textStableB S = tru
   intro gap res hgap hres
   have hg := fit_around_gap_valid S doc f t req hv F T G1 G2 sl ins b h gap hgap
   have hgn := (sliceKids_norm doc.kids G1 G2 gap hn hgap).1
-  exact insertAt_openValid S (PM.FromDom.textStable_of_B S hst) sl res ins gap.content hg hgn (hsn sl rfl) hwf.2 hval hres
+  exact insertAt_openValid S sl res ins gap.content hg hgn (hsn sl rfl) hwf.2 hval hres
 
 /-- **`insertInline_valid_of_norm`** — `insertInline_valid_partial` with the residual reduced to the normal form of the
     emitted slice (a decidable property of the recorded step; the document in normal form, the schema
